@@ -269,6 +269,58 @@ theorem listing_operand_safe (name : List Char) : Listing.operandSafe name = tru
     · simp
       exact Or.inr h
 
+/-- ★ the same for the attribute line of `typeset -fp` (`typeset -fr [-- ]<name>`), over the separator
+    characters extracted from print_functions.rs: for EVERY function name the operand cannot be taken
+    for an option. -/
+theorem function_attr_operand_safe (name : List Char) : Listing.fnOperandSafe name = true := by
+  have ht : ∀ c ∈ Listing.optionPrefixChars, c ∈ Generated.QuoteTables.functionSeparatorPrefixes := by decide
+  unfold Listing.fnOperandSafe Listing.fsepOf
+  cases name with
+  | nil => simp
+  | cons c cs =>
+    by_cases h : c ∈ Listing.optionPrefixChars
+    · have h2 : Generated.QuoteTables.functionSeparatorPrefixes.contains c = true :=
+        List.contains_iff_mem.mpr (ht c h)
+      have h3 : "-- ".toList.isEmpty = false := by decide
+      simp only [h2, if_true, h3]
+      rfl
+    · simp
+      exact Or.inr h
+
+theorem fsepOf_cases (n : List Char) : Listing.fsepOf n = [] ∨ Listing.fsepOf n = "-- ".toList := by
+  unfold Listing.fsepOf
+  cases n with
+  | nil => exact Or.inl rfl
+  | cons c cs =>
+    by_cases h : Generated.QuoteTables.functionSeparatorPrefixes.contains c = true
+    · right; simp only [h, if_true]
+    · left
+      have : Generated.QuoteTables.functionSeparatorPrefixes.contains c = false := by simpa using h
+      simp only [this, Bool.false_eq_true, if_false]
+
+/-- ★ `listing_reparse`, function attribute lines: for EVERY function name the line
+    `typeset -fr [-- ]<name>` printed by `typeset -fp` reads back as the words `typeset -fr [--] name`. -/
+theorem function_attr_line_reparse (name : List Char) :
+    readBack (Listing.dropNl (Listing.printFnAttr name))
+      = some (["typeset".toList, "-fr".toList]
+          ++ (if (Listing.fsepOf name).isEmpty then [] else ["--".toList]) ++ [name]) := by
+  have h0 : "typeset -fr ".toList = prefixSp ["typeset".toList, "-fr".toList] := by decide
+  have h3 : "-- ".toList = prefixSp ["--".toList] := by decide
+  have hq0 : ∀ w ∈ ["typeset".toList, "-fr".toList], quote w = w := by decide
+  have hq3 : ∀ w ∈ ["--".toList], quote w = w := by decide
+  have hne : "-- ".toList.isEmpty = false := by decide
+  unfold Listing.printFnAttr
+  rcases fsepOf_cases name with hs | hs
+  · rw [hs]
+    simp only [List.append_nil, List.isEmpty_nil, if_true]
+    rw [dropNl_append_nl, h0, readBack_prefix _ hq0, quote_roundtrip]
+    rfl
+  · rw [hs, hne]
+    simp only [Bool.false_eq_true, if_false]
+    rw [dropNl_append_nl, List.append_assoc, h0, h3, readBack_prefix _ hq0,
+      readBack_prefix _ hq3, quote_roundtrip]
+    rfl
+
 /-- option words `typeset -p` prints before the name -/
 def typesetOptWords (v : Listing.Var) : List (List Char) :=
   (if v.readonly then ["-r".toList] else []) ++ (if v.exported then ["-x".toList] else [])
